@@ -8,7 +8,13 @@ def digest(v, problems=None, path="top"):
 
     problems: optional list collecting structural complaints (attribute set mismatches).
     """
+    if path.count(".") + path.count("[") + path.count("{") > 60:
+        # deeper than any value tree of the generated families: an object that contains itself
+        if problems is not None:
+            problems.append("%s: value tree does not end (an object reachable from itself?)" % path[:80])
+        return {"endless": type(v).__name__}
     if isinstance(v, zdt.Wrapped):
+        path = path + "."
         tag = "W2" if getattr(v, "kind", 1) == 2 else "W"
         return {tag: digest(v.value, problems, path)}
     if hasattr(v, "getSectionAttributes") and hasattr(v, "getSectionType"):
